@@ -102,6 +102,20 @@ def _reorder(a, order):
     return a
 
 
+def _scribble(r, k):
+    """What a caller may do to an array it was given: overwrite it in place."""
+    if not r.flags.writeable:
+        return
+    if k % 3 == 0:
+        np.nan_to_num(r, copy=False)
+        np.abs(r, out=r)
+        r += 3.0
+    elif k % 3 == 1:
+        r[...] = 12345.5
+    else:
+        r[...] = np.nan
+
+
 def _check_export(a, rows, den, what):
     got = _flat(a.tolist())
     want = _flat(rows)
@@ -159,18 +173,24 @@ def admissible(case):
     cannot be told from zero (budget >= 1/64).  That is float cancellation, outside what the property promises; such
     inputs are run in float64 or not generated for that class.  (Undefined entries are NaN in every regime since the
     repair 4ecffab and are generated for all three classes.)"""
-    if case['kind'] == 'cpa_alt' and vacuity(case) >= Fraction(1, 64):
-        return False
+    if case['kind'] != 'cpa_alt':
+        return True
+    ends, pos = [], 0
+    for i, b in enumerate(case['splits']):
+        pos += b
+        if i in case.get('computes', []) or i == len(case['splits']) - 1:
+            ends.append(pos)
+    for k in ends:                        # every moment at which compute() is called sees only the rows fed so far
+        if vacuity(dict(case, traces=case['traces'][:k], data=case['data'][:k])) >= Fraction(1, 64):
+            return False
     return True
 
 
 def settle(case):
     """Return an admissible variant of the case (same class, float64 instead of float32), or None (case not generated)."""
-    if admissible(case):
-        return case
-    c = dict(case, precision='float64')
-    if admissible(c):
-        return c
+    for c in (case, dict(case, precision='float64'), dict(case, computes=[]), dict(case, computes=[], precision='float64')):
+        if admissible(c):
+            return c
     return None
 
 
@@ -233,6 +253,46 @@ def make_case(rng, kind, n=None, S=None, dims=None, tdtype=None, ddtype=None, pr
     return {'kind': kind, 'precision': prec, 'tdtype': tdtype, 'ddtype': ddtype, 'dims': dims, 'S': S,
             'tden': _den(tdtype), 'traces': traces, 'dden': _den(ddtype), 'data': data, 'splits': _splits(rng, n),
             'order': rng.choice(['C', 'C', 'C', 'F', 'strided']), 'block': f'random/{tmode}'}
+
+
+def _with_computes(rng, case):
+    """Choose after which batches (not the last) compute() is also called: none / all / a random subset."""
+    inner = list(range(len(case['splits']) - 1))
+    mode = rng.choice(['none', 'all', 'all', 'some'])
+    case['computes'] = [] if mode == 'none' else inner if mode == 'all' else [i for i in inner if rng.random() < 0.5]
+    return case
+
+
+def becomes_defined_block(rng, kind, tier):
+    """Entries that are undefined at an early compute() (constant sample / constant word / empty bit class among the rows fed
+    so far, or a single row) and defined at a later one: compute() after every batch."""
+    for i in range(24 if tier == 'quick' else 240):
+        n = rng.choice([3, 4, 6, 9, 14])
+        c = make_case(rng, kind, n=n, S=rng.randint(1, 3), dims=rng.choice([[2], [3], [2, 2]]), tmode=rng.choice(['small', 'byte']),
+                      dmode=rng.choice(['small', 'byte']))
+        k = 1 if i % 4 == 0 else rng.randint(1, n - 1)
+        rest = n - k
+        c['splits'] = [k] + ([rest] if rest < 2 or i % 2 else [rest // 2, rest - rest // 2])
+        c['computes'] = list(range(len(c['splits']) - 1))
+        D = _prod(c['dims'])
+        if kind == 'dpa':
+            for w in range(D):                       # first batch: word w all 0 / all 1 / mixed; later rows hold both values
+                b = [0, 1, None][(w + i) % 3]
+                for t in range(n):
+                    c['data'][t][w] = (b if b is not None else rng.randint(0, 1)) if t < k else (t - k + w) % 2
+        else:
+            js, jw = rng.randrange(c['S']), rng.randrange(D)
+            v, u = c['traces'][0][js], c['data'][0][jw]
+            for t in range(k):                       # constant sample js and constant word jw during the first batch only
+                c['traces'][t][js] = v
+                c['data'][t][jw] = u
+            lo_t, hi_t = _cap(c['precision'], *_range(c['tdtype']))
+            lo_d, hi_d = _cap(c['precision'], *_range(c['ddtype']))
+            if k < n:
+                c['traces'][k][js] = v + 1 if v + 1 <= hi_t else v - 1
+                c['data'][k][jw] = u + 1 if u + 1 <= hi_d else u - 1
+        c['block'] = 'becomes_defined'
+        yield c
 
 
 def _set_col(rows, j, vals):
@@ -359,23 +419,21 @@ def collapse_block(rng, kind, tier):
 
 class CorrKind(Kind):
     header = HDR
-    case_type = 'cpa_case'
-    check_fn = 'cpa_check'
-    explain_fn = 'cpa_explain'
+    case_type = 'hist_case'
+    check_fn = 'hist_check'
+    explain_fn = 'hist_explain'
     shard = 60
     kind = 'cpa'
 
     def gen(self, rng, tier):
-        for c in boundary(rng, self.kind, tier):
-            c = settle(c)
-            if c is not None:
-                yield c
         n = 260 if tier == 'quick' else 3000
-        for _ in range(n):
-            c = settle(make_case(rng, self.kind))
+        stream = itertools.chain(boundary(rng, self.kind, tier), (make_case(rng, self.kind) for _ in range(n)),
+                                 rounded_block(rng, self.kind, tier), collapse_block(rng, self.kind, tier))
+        for c in stream:
+            c = settle(_with_computes(rng, c))
             if c is not None:
                 yield c
-        for c in itertools.chain(rounded_block(rng, self.kind, tier), collapse_block(rng, self.kind, tier)):
+        for c in becomes_defined_block(rng, self.kind, tier):
             c = settle(c)
             if c is not None:
                 yield c
@@ -393,27 +451,38 @@ class CorrKind(Kind):
         _check_export(data, case['data'], case['dden'], 'data')
         t0, d0 = traces.copy(), data.copy()
         d = getattr(scared, CLS[case['kind']])(precision=case['precision'])
+        computes = set(case.get('computes', []))
+        seen, pure = [], True
         with warnings.catch_warnings():
             warnings.simplefilter('ignore')
             pos = 0
-            for b in case['splits']:
+            for i, b in enumerate(case['splits']):
                 d.update(traces[pos:pos + b], data[pos:pos + b])
                 pos += b
-            r = d.compute()
-            r2 = d.compute()
-        same = bool(np.array_equal(r, r2, equal_nan=True))
-        return {'shape': list(r.shape), 'values': [float(v) for v in _flat(r.tolist())], 'dtype': str(r.dtype),
-                'processed': int(d.processed_traces), 'compute_twice_same': same,
+                if i in computes or i == len(case['splits']) - 1:
+                    r = d.compute()
+                    seen.append({'rows': pos, 'shape': list(r.shape), 'values': [float(v) for v in _flat(r.tolist())], 'dtype': str(r.dtype)})
+                    kept = r.copy()
+                    _scribble(r, len(seen))                  # the result belongs to the caller: in-place post-processing ...
+                    r2 = d.compute()                         # ... must not show in the next compute()
+                    pure = pure and r2.shape == kept.shape and bool(np.array_equal(r2, kept, equal_nan=True))
+                    _scribble(r2, len(seen) + 1)             # nor in any later one (checked against the spec)
+        last = seen[-1]
+        return {'shape': last['shape'], 'values': last['values'], 'dtype': last['dtype'], 'prefix': seen[:-1],
+                'processed': int(d.processed_traces), 'compute_twice_same': pure,
                 'inputs_unchanged': bool(np.array_equal(traces, t0) and np.array_equal(data, d0))}
 
     def coq(self, case, obs):
         shape, vals = (obs.get('shape', []), obs.get('values', [])) if 'raised' not in obs else ([], [])
-        return ('{| k_kind := %s; k_prec := %s; k_dims := %s; k_S := %s; k_tden := %d%%positive; k_traces := %s; '
-                'k_dden := %d%%positive; k_data := %s; k_obs_shape := %s; k_obs := %s |}' % (
-                    COQ_KIND[case['kind']], 'F32' if case['precision'] == 'float32' else 'F64',
-                    C.coq_list(case['dims'], C.coq_nat), C.coq_nat(case['S']), case['tden'], C.coq_list2(case['traces'], C.coq_z),
-                    case['dden'], C.coq_list2(case['data'], C.coq_z), C.coq_list(shape, C.coq_nat),
-                    C.coq_list(vals, core.float_to_coq)))
+        final = ('{| k_kind := %s; k_prec := %s; k_dims := %s; k_S := %s; k_tden := %d%%positive; k_traces := %s; '
+                 'k_dden := %d%%positive; k_data := %s; k_obs_shape := %s; k_obs := %s |}' % (
+                     COQ_KIND[case['kind']], 'F32' if case['precision'] == 'float32' else 'F64',
+                     C.coq_list(case['dims'], C.coq_nat), C.coq_nat(case['S']), case['tden'], C.coq_list2(case['traces'], C.coq_z),
+                     case['dden'], C.coq_list2(case['data'], C.coq_z), C.coq_list(shape, C.coq_nat),
+                     C.coq_list(vals, core.float_to_coq)))
+        prefix = C.coq_list(obs.get('prefix', []), lambda p: '(%s, (%s, %s))' % (
+            C.coq_nat(p['rows']), C.coq_list(p['shape'], C.coq_nat), C.coq_list(p['values'], core.float_to_coq)))
+        return '{| h_final := %s; h_prefix := %s |}' % (final, prefix)
 
     def oracle(self, case, obs):
         if 'raised' in obs:
@@ -423,7 +492,8 @@ class CorrKind(Kind):
         if obs['processed'] != len(case['traces']):
             return f'processed_traces = {obs["processed"]} after {len(case["traces"])} traces'
         if not obs['compute_twice_same']:
-            return 'two successive compute() calls returned different results'
+            return ('compute() called again after the caller overwrote the returned array in place gave different values: '
+                    'compute is not pure or its result is not caller-owned')
         return None
 
     def nontrivial(self, case, obs):
@@ -434,7 +504,8 @@ class CorrKind(Kind):
         vals = obs.get('values', [])
         nn = sum(1 for v in vals if v != v)
         return {'precision': case['precision'], 'tdtype': case['tdtype'], 'ddtype': case['ddtype'], 'ndim_words': len(case['dims']),
-                'block': case.get('block', '?').split('/')[0], 'batches': len(case['splits']), 'memory_order': case.get('order', 'C'),
+                'block': case.get('block', '?').split('/')[0], 'batches': len(case['splits']),
+                'intermediate_computes': len(case.get('computes', [])), 'memory_order': case.get('order', 'C'),
                 'nan_entries': 'none' if nn == 0 else ('all' if nn == len(vals) else 'some'),
                 'exact_sums': exact_regime(case), 'result_dtype': obs.get('dtype', '?')}
 
@@ -447,6 +518,11 @@ class CorrKind(Kind):
         return {'case': case, 'observed': obs}
 
     def shrink(self, case):
+        for c in self._shrink(case):
+            if admissible(c):             # a smaller case must still be one the generators could have produced
+                yield c
+
+    def _shrink(self, case):
         n, S, dims = len(case['traces']), case['S'], case['dims']
         D = _prod(dims)
         # a slab along one word axis (keeps the number of word dimensions), then fewer words as a 1-D word shape
@@ -467,16 +543,37 @@ class CorrKind(Kind):
             h = S // 2
             for ss in (list(range(h)), list(range(h, S))):
                 yield dict(case, S=len(ss), traces=[[r[s] for s in ss] for r in case['traces']])
+        # history: fewer intermediate computes, then one batch; rows are dropped inside their batch (history kept)
+        comp = case.get('computes', [])
+        for i in comp:
+            yield dict(case, computes=[j for j in comp if j != i])
         if len(case['splits']) > 1:
-            yield dict(case, splits=[n])
+            yield dict(case, splits=[n], computes=[])
         if n > 2:
-            h = n // 2
-            for rows in (list(range(h)), list(range(h, n))):
-                if len(rows) >= 2:
-                    yield dict(case, traces=[case['traces'][i] for i in rows], data=[case['data'][i] for i in rows], splits=[len(rows)])
-            for i in range(n):
-                rows = [j for j in range(n) if j != i]
-                yield dict(case, traces=[case['traces'][j] for j in rows], data=[case['data'][j] for j in rows], splits=[n - 1])
+            for i in list(range(n - 1, -1, -1)):
+                c = _drop_row(case, i)
+                if c is not None:
+                    yield c
+
+
+def _drop_row(case, i):
+    """The case without row i: its batch shrinks by one; an emptied batch disappears with the compute() that followed it."""
+    n = len(case['traces'])
+    if n <= 2:
+        return None
+    splits, comp = list(case['splits']), list(case.get('computes', []))
+    pos = 0
+    for b, size in enumerate(splits):
+        if pos <= i < pos + size:
+            break
+        pos += size
+    splits[b] -= 1
+    if splits[b] == 0:
+        del splits[b]
+        comp = [j - 1 if j > b else j for j in comp if j != b]
+    comp = sorted({j for j in comp if 0 <= j < len(splits) - 1})
+    rows = [j for j in range(n) if j != i]
+    return dict(case, traces=[case['traces'][j] for j in rows], data=[case['data'][j] for j in rows], splits=splits, computes=comp)
 
 
 def _nest(flat, dims):
@@ -494,7 +591,9 @@ class CpaKind(CorrKind):
             'constant sample / constant word / both / all constant (n = 2,3,5,6,7,11, exact sums), n = 2, two equal rows, '
             'r = +-1, dtype extremes and full range, word shapes, large offset + small spread, constant columns with rounded sums '
             '(uint16..int64 in float32, 64-bit in float64), columns that collapse to a constant in the float precision; C / Fortran / '
-            'strided memory layouts; compared with the Pearson spec in exact rationals; non-trivial = at least one defined entry')
+            'strided memory layouts; compute() also between the batches (none / all / some), each compared with the spec of the rows '
+            'fed so far, entries undefined at an early compute and defined later; after every compute the returned array is overwritten '
+            'in place and compute() called again; compared with the Pearson spec in exact rationals; non-trivial = at least one defined entry')
 
 
 class CpaAltKind(CorrKind):
@@ -604,8 +703,12 @@ class LargeNKind(Kind):
                 d.update(traces[pos:pos + b], data[pos:pos + b])
                 pos += b
             r = d.compute()
-        return {'shape': list(r.shape), 'values': [float(v) for v in _flat(r.tolist())], 'dtype': str(r.dtype),
-                'processed': int(d.processed_traces)}
+            out = {'shape': list(r.shape), 'values': [float(v) for v in _flat(r.tolist())], 'dtype': str(r.dtype)}
+            kept = r.copy()
+            _scribble(r, 1)
+            r2 = d.compute()
+        out.update(processed=int(d.processed_traces), pure=bool(r2.shape == kept.shape and np.array_equal(r2, kept, equal_nan=True)))
+        return out
 
     def coq(self, case, obs):
         shape, vals = (obs.get('shape', []), obs.get('values', [])) if 'raised' not in obs else ([], [])
@@ -619,6 +722,8 @@ class LargeNKind(Kind):
             return f'{CLS[case["kind"]]} update/compute raised {obs["raised"]}: {obs["msg"]}'
         if obs['processed'] != case['n']:
             return f'processed_traces = {obs["processed"]} after {case["n"]} traces'
+        if not obs['pure']:
+            return 'compute() called again after the caller overwrote the returned array in place gave different values'
         return None
 
     def nontrivial(self, case, obs):
